@@ -10,6 +10,8 @@ claimed = {
  "C17": ("exploration", "4 C17", "arbitrary GC arguments on generated layouts checked on the disk-seam event log and inventories; two competing GC requests under seeded schedules with a pass-overlap detector"),
  "C06": ("fault_enumeration", "4 C06", "crash (SIGKILL) at file-system mutation boundaries of simulated histories + torn data writes; every snapshot recovered and read back; independent durable-log scan as oracle"),
  "C07": ("fault_enumeration", "4 C07", "crash at every file-system mutation boundary inside simulated GC passes + torn relocation writes; recovery vs pre-pass model state"),
+ "C08": ("exploration", "4 C08", "pairs of simulated worlds with equal content and different histories: complete listing walks compared; plus recomputation of listings from the reference model inside every world"),
+ "C13": ("exploration", "4 C13", "C01/C02/C03 histories over key groups forced onto one key hash (hash override seam), gets compared with an independent-keys reference map"),
  "C09": ("fault_enumeration", "4 C09", "independent decode of data files vs the model's append log; corruption faults (bit flips, byte overwrites, zeroed blocks, truncations, forged size fields) enumerated over record positions; positional and rescan reads after restart vs independent resynchronising scanner"),
  "C10": ("exploration", "4 C10", "seeded simulation: threshold values through buffer/disk/restart/GC vs reference map and reference value hash"),
  "C15": ("exploration", "4 C15", "seeded simulation: disk-seam observation of every append vs reference routing, served/unserved subsets"),
@@ -24,6 +26,8 @@ texts = {
  "C17": "No disk mutation of a pass touches the file receiving appends or an existing file outside the resolved range (except appends to one earlier file), pretend mode and refusals mutate nothing, the age limit holds for the file following the range, and two passes on one bucket never overlap; sampling over arguments, layouts and schedules.",
  "C06": "Per generated history the crash points (every disk mutation boundary in thorough, a drawn sixth in quick) and torn variants of data writes are recovered and read back: served values must be really issued writes not older than the newest intact durable record; refusal to start only with a partial record at a file end. Exhaustive per history in the thorough tier only, never for the property.",
  "C07": "Same enumeration restricted to the boundaries inside GC passes; after recovery every key must read its pre-pass value. The in-place rewrite of the first file of a range is not crash safe (known findings KF-C07-stale-tail-*, DESIGN section 11); violations outside that state are reported.",
+ "C08": "For pairs of stores with equal live content reached through different histories (permutation, redundant overwrites, delete-then-reset at a forced version, restarts with the tree loaded or rebuilt, GC) the complete listing walks agree node for node and as live-item sets; listings also equal an independent recomputation (reference key hash, value hash, aggregation) at all prefix lengths 0..16, including single-leaf populations above the 100-item and 256-key thresholds; sampling.",
+ "C13": "Only what a get returns is compared for colliding keys (the statement's observable obligations). The code violates the property in several ways (known findings KF-C13-collide-*); groups hit by a known finding are taken out of the comparison and the world continues, any other violation is reported.",
  "C09": "The bytes on disk decode (independent codec, CRC-32, 256-byte blocks) to exactly the model's append log; for enumerated corruption faults a get never returns anything but bytes written for that key, and after a rescan every key reads its newest intact record at the scanner's offset. Complete per file only in the thorough tier; CRC collisions ignored.",
  "C10": "Values around every compression decision threshold read back byte-exact with client flags and reference value hash from buffer, disk, after restart and GC; only the first sentence of the property (second sentence: not decided, see DESIGN section 5).",
  "C15": "Every data append observed at the disk seam lies in the directory selected by the reference key hash; unserved buckets store nothing and miss; sampling over keys and served subsets.",
